@@ -7,7 +7,8 @@ from .. import astq, codec, reference, smf, wire
 from ..absint import AList, AObj, Opaque, SeqVar
 from ..bits import AV
 from ..model import AnalysisError, unparse
-from ..wire import AFile, Field, StrSym
+from ..fold import ClassRef
+from ..wire import AFile, Field, StrSym, VLQ
 
 LEVEL = 'other'
 EXPLANATION = (
@@ -275,4 +276,62 @@ def r07_codec(ctx):
     ctx.borrow(c17.r17_4, 'R07.9')
 
 
-RULES = [('R07.8', r07_vlq), ('R07.9', r07_codec), ('R07-induction', r07_induction), ('R07-scenarios', r07_scenarios), ('R07.5', r07_5), ('R07.4', r07_4), ('R07-file', r07_file), ('R07.1-time', r07_1_time)]
+def r07_fixed_point(ctx):
+    """load - save - load: what the reader accepts the writer must be able to store (sibling agreement of the two acceptance
+    sets, decided on the shapes where they could differ: status bytes the writer refuses, header combinations save() refuses)."""
+    ai = smf.make_interp(ctx)
+    rt_fn = ctx.fn(ctx.p.func(smf.MF, 'read_track'))
+    wt = ctx.fn(ctx.p.func(smf.MF, 'write_track'))
+    cls = ctx.p.cls(smf.MF, 'MidiFile')
+    o, load = ctx.p.lookup_method(cls, '_load')
+    o, save = ctx.p.lookup_method(cls, 'save')
+    w = ctx.where(rt_fn)
+    n = 0
+    t = smf.tsym('t')
+    for status, name in ((0xf8, 'clock'), (0xfa, 'start'), (0xfb, 'continue'), (0xfc, 'stop'), (0xfe, 'active_sensing')):
+        body = [VLQ(t), status, VLQ(0), 0xff, 0x2f, VLQ(0)]
+        stream = [Field('4s', b'MTrk'), Field('L', wire.size_of(body))] + body
+        holder = {}
+
+        def thunk():
+            tr = ai.call_function(rt_fn, [AFile(stream=list(stream), name='in')], {})
+            holder['loaded'] = tr
+            out = AFile(name='out')
+            ai.call_function(wt, [out, tr], {})
+            return out
+        outs = ai.explore(thunk)
+        n += 1
+        loaded = 'loaded' in holder
+        ok = not loaded or (len(outs) == 1 and outs[0].kind == 'return')
+        ctx.require(ok, 'R07.10', f'load-save(track holding the status byte {status:#04x})', w,
+                    f'a track with the byte {status:#04x} ({name}) loads as {holder.get("loaded")!r} but saving it gives {outs}: '
+                    'not a fixed point of load-save-load (the reader accepts a real-time status the writer refuses)',
+                    construct=f'{rt_fn.qname}::accepts-realtime-status')
+        holder.clear()
+    # header: type 0 with a track count other than 1
+    for ntracks in (0, 2):
+        trk = [VLQ(0), 0xff, 0x2f, VLQ(0)]
+        stream = [Field('4s', b'MThd'), Field('L', 6), Field('h', 0), Field('h', ntracks), Field('h', 480)]
+        for _ in range(ntracks):
+            stream += [Field('4s', b'MTrk'), Field('L', wire.size_of(trk))] + trk
+        holder = {}
+
+        def thunk2():
+            mf = ai.apply(ClassRef(cls), [], {'file': AFile(stream=list(stream), name='in')}, None)
+            holder['mf'] = mf
+            out = AFile(name='out')
+            ai.call_function(save, [mf], {'file': out})
+            return out
+        outs = ai.explore(thunk2)
+        n += 1
+        loaded = 'mf' in holder
+        ok = not loaded or (len(outs) == 1 and outs[0].kind == 'return')
+        ctx.require(ok, 'R07.10', f'load-save(type 0 file with {ntracks} tracks)', ctx.where(load),
+                    f'a type 0 file with {ntracks} tracks loads, but saving it gives {outs}: not a fixed point of load-save-load',
+                    construct=f'{load.qname}::accepts-type0-track-count')
+    ctx.floor('R07.10', n, 7)
+    for q in ai.inlined:
+        ctx.functions.add(q)
+
+
+RULES = [('R07.10', r07_fixed_point), ('R07.8', r07_vlq), ('R07.9', r07_codec), ('R07-induction', r07_induction), ('R07-scenarios', r07_scenarios), ('R07.5', r07_5), ('R07.4', r07_4), ('R07-file', r07_file), ('R07.1-time', r07_1_time)]
